@@ -55,7 +55,7 @@ class Run(PropRunStream):
     quick_cases = 330
     quick_seconds = 50
     p_interrupt = 0.3           # interrupted runs are ordinary cases since fix D11 (SuiteEnd / TestSessionEnd order holds under interrupt)
-    corpus = [witness("D11 "), witness("D1 "), witness("D3 ")] + W2.CONTROLS
+    corpus = [witness("D11 "), witness("D1 "), witness("D3 ")] + W2.CONTROLS + W2.CONTROLS2
 
 
 def streams(ctx):
